@@ -9,10 +9,15 @@
     c08.redc <n> <lower> <upper> <modulus> <k>      public `montgomery_reduction`
     c08.mul_mod <kind> <n> <a> <b> <p>              `Uint::mul_mod` / `BoxedUint::mul_mod`
     c08.hook.amm / c08.hook.amm_by_one / c08.hook.redc_inner / c08.hook.params   crate-internal functions (verif_hooks)
+    c08.params_cteq <n> <m1> <m2>                   `ConstantTimeEq` of `MontyParams` / `MontyForm` across parameter sets
+  Coverage round (CB.Model.MontyX): further steps of `c08.hist`
+        frommont,v  setmont,i,v  lincomb.t,i,j,i,j,…  zeroize,i  eq,i,j  obs.<t|tm|p|pt|z|bp>,i
+    (`new.t`, `new.arc`, `zero.t`, `zero.d`, `zero.z`, `one.t` are surface forms of `new/zero/one`); some of them
+    append `|<extra>` to the step's token (see `Extra`); kinds `dynt`, `boxedt` = `Monty::new_params_vartime`.
   Every line is printed as `L1 ;; L0` (L1 = limb model, L0 = what the property demands).
 -/
 import CB.Driver.Util
-import CB.Model.Monty
+import CB.Model.MontyX
 namespace CB.Monty
 open CB
 
@@ -62,30 +67,127 @@ def kindInit (kind : String) (ms : List Nat) : Option (Rep × Params) :=
   | "const" => some (.const, paramsConst ms)
   | "boxed" => some (.boxed, paramsBoxed ms)
   | "boxedv" => some (.boxed, paramsBoxed ms)
+  -- `<MontyForm as Monty>::new_params_vartime` / `<BoxedMontyForm as Monty>::new_params_vartime`
+  | "dynt" => some (.dyn, paramsNewVartime ms)
+  | "boxedt" => some (.boxed, paramsBoxed ms)
   | _ => none
 
-/-- run the history on the limb model, one output token per step. -/
-def histL1 (st : State) : List MontyOp → List String → Option (List String)
-  | [], acc => some acc.reverse
-  | op :: ops, acc =>
-    if !handlesOk st.store.length op then none else
-    let idx := affected st op
-    let st' := step st op
-    let v := st'.get idx
-    histL1 st' ops (s!"{limbsHex v}:{limbsHex (opRetrieve st' v)}" :: acc)
+/-! ### coverage round: extended steps -/
 
-/-- the same history on residues. -/
-def histL0 (n m : Nat) (sp : List Nat) (len : Nat) : List MontyOp → List String → List String
+/-- what a step appends to its `form:retrieve` token. -/
+inductive Extra where
+  | none
+  | params        -- `|mod=…,one=…,r2=…,r3=…,k=…,lz=…` read through `params()` / `Monty::params()`
+  | isZero        -- `|z=<is_zero>[<is_nonzero>]`
+  | bits          -- `|bits=<bits_precision()>`
+  | eq (j : Nat)  -- `|eq=<ct_eq / ==>` against handle `j`
+  | zeroized      -- runtime form only: `|zp=<the zeroized parameter fields>`
+
+def paramsTokC (p : Params) : String :=
+  s!"mod={limbsHex p.modulus},one={limbsHex p.one},r2={limbsHex p.r2},r3={limbsHex p.r3},k={natToHex p.modNegInv},lz={p.modLeadingZeros}"
+
+def pairsOf : List Nat → Option (List (Nat × Nat))
+  | [] => some []
+  | i :: j :: rest => (pairsOf rest).map ((i, j) :: ·)
+  | _ => none
+
+def parseStepX (s : String) : Option (XOp × Extra) :=
+  match s.splitOn "," with
+  | [] => none
+  | nameForm :: args =>
+    let name := (nameForm.splitOn ".").head!
+    let form := ((nameForm.splitOn ".").drop 1).headD ""
+    match name, args with
+    | "obs", [i] =>
+      match i.toNat?, form with
+      | some i, "t" | some i, "tm" => some (.observe i, .none)
+      | some i, "p" | some i, "pt" => some (.observe i, .params)
+      | some i, "z" => some (.observe i, .isZero)
+      | some i, "bp" => some (.observe i, .bits)
+      | _, _ => none
+    | "eq", [i, j] =>
+      match i.toNat?, j.toNat? with
+      | some i, some j => some (.observe i, .eq j)
+      | _, _ => none
+    | "frommont", [v] => (hexToNat? v).map fun v => (.fromMont v, .none)
+    | "setmont", [i, v] =>
+      match i.toNat?, hexToNat? v with
+      | some i, some v => some (.setMont i v, .none)
+      | _, _ => none
+    | "lincomb", _ =>
+      match decArgs args with
+      | some l => (pairsOf l).map fun ps => (.lincomb ps, .none)
+      | none => none
+    | "zeroize", [i] => i.toNat?.map fun i => (.zeroize i, .zeroized)
+    | _, _ => (parseStep s).map fun op => (.base op, .none)
+
+def handlesOkX (len : Nat) : XOp × Extra → Bool
+  | (.base op, _) => handlesOk len op
+  | (.fromMont _, _) => true
+  | (.setMont i _, _) | (.zeroize i, _) => i < len
+  | (.lincomb ps, _) => !ps.isEmpty && ps.all fun p => p.1 < len && p.2 < len
+  | (.observe i, .eq j) => i < len && j < len
+  | (.observe i, _) => i < len
+
+def bitTok (x : Bool) : String := if x then "1" else "0"
+
+def extraL1 (st : State) (v : List Nat) : Extra → String
+  | .none => ""
+  | .params => "|" ++ paramsTokC st.params
+  | .isZero =>
+    match st.rep with
+    | .boxed => s!"|z={bitTok (formIsZero v)}{bitTok (!formIsZero v)}"
+    | _ => s!"|z={bitTok (formIsZero v)}"
+  | .bits => s!"|bits={64 * st.n}"
+  | .eq j => s!"|eq={bitTok (formCtEq st v (st.get j))}"
+  | .zeroized =>
+    match st.rep with
+    | .dyn => "|zp=" ++ paramsTokC (zeroizeParams st.params)
+    | _ => ""
+
+/-- run the extended history on the limb model, one output token per step. -/
+def histL1X (st : State) : List (XOp × Extra) → List String → Option (List String)
+  | [], acc => some acc.reverse
+  | (op, ex) :: ops, acc =>
+    if !handlesOkX st.store.length (op, ex) then none else
+    let idx := affectedX st op
+    let st' := stepX st op
+    let v := st'.get idx
+    histL1X st' ops (s!"{limbsHex v}:{limbsHex (opRetrieve st' v)}{extraL1 st' v ex}" :: acc)
+
+def repAfter (rep : Rep) : XOp → Rep
+  | .base .conv => match rep with | .const => .dyn | _ => .boxed
+  | _ => rep
+
+def extraL0 (n m : Nat) (rep : Rep) (sp : List Nat) (x : Nat) : Extra → String
+  | .none => ""
+  | .params => "|" ++ paramsTokC (paramsSpec n m)
+  | .isZero =>
+    match rep with
+    | .boxed => s!"|z={bitTok (x == 0)}{bitTok (x != 0)}"
+    | _ => s!"|z={bitTok (x == 0)}"
+  | .bits => s!"|bits={64 * n}"
+  | .eq j => s!"|eq={bitTok (x == sget sp j)}"
+  | .zeroized =>
+    match rep with
+    | .dyn => "|zp=mod=0,one=0,r2=0,r3=0,k=0,lz=0"
+    | _ => ""
+
+/-- the same extended history on residues. -/
+def histL0X (n m : Nat) (rep : Rep) (sp : List Nat) : List (XOp × Extra) → List String → List String
   | [], acc => acc.reverse
-  | op :: ops, acc =>
+  | (op, ex) :: ops, acc =>
+    let len := sp.length
     let idx := match op with
-      | .addAssign i _ | .subAssign i _ | .mulAssign i _ | .squareAssign i | .div2Assign i
-      | .copyFrom i _ => i
-      | .conv => len - 1
+      | .base (.addAssign i _) | .base (.subAssign i _) | .base (.mulAssign i _) | .base (.squareAssign i)
+      | .base (.div2Assign i) | .base (.copyFrom i _) => i
+      | .base .conv => len - 1
+      | .setMont i _ | .zeroize i | .observe i => i
       | _ => len
-    let sp' := stepSpec m sp op
+    let sp' := stepSpecX n m sp op
+    let rep' := repAfter rep op
     let x := sget sp' idx
-    histL0 n m sp' sp'.length ops (s!"{limbsHex (canon n m x)}:{natToHex x}" :: acc)
+    histL0X n m rep' sp' ops (s!"{limbsHex (canon n m x)}:{natToHex x}{extraL0 n m rep' sp' x ex}" :: acc)
 
 def paramsTok (p : Params) : String :=
   s!"mod={limbsHex p.modulus} one={limbsHex p.one} r2={limbsHex p.r2} r3={limbsHex p.r3} k={natToHex p.modNegInv} lz={p.modLeadingZeros}"
@@ -108,11 +210,11 @@ def dispatchC08 : Dispatch := fun op args =>
     match n.toNat?, hexToNat? m with
     | some n, some m =>
       let ms := toLimbs n m
-      match kindInit kind ms, (ops.splitOn ";").mapM parseStep with
+      match kindInit kind ms, (ops.splitOn ";").mapM parseStepX with
       | some (rep, p), some ops =>
-        match histL1 { rep := rep, params := p, store := [] } ops [] with
+        match histL1X { rep := rep, params := p, store := [] } ops [] with
         | some l1 =>
-          let l0 := histL0 n m [] 0 ops []
+          let l0 := histL0X n m rep [] ops []
           some (s!"mod={natToHex m} " ++ " ".intercalate l1 ++ " ;; " ++ s!"mod={natToHex m} " ++ " ".intercalate l0)
         | none => badArgs
       | _, _ => badArgs
@@ -123,9 +225,9 @@ def dispatchC08 : Dispatch := fun op args =>
       let ms := toLimbs n m
       let p? : Option Params := match kind with
         | "dyn" => some (paramsNew ms)
-        | "dynv" => some (paramsNewVartime ms)
+        | "dynv" | "dynt" => some (paramsNewVartime ms)
         | "const" | "dynfromconst" | "boxedfromconst" => some (paramsConst ms)
-        | "boxed" | "boxedv" => some (paramsBoxed ms)
+        | "boxed" | "boxedv" | "boxedt" => some (paramsBoxed ms)
         | _ => none
       match p? with
       | some p => some (paramsTok p ++ " ;; " ++ paramsTok (paramsSpec n m))
@@ -138,6 +240,15 @@ def dispatchC08 : Dispatch := fun op args =>
       let b := fun (x : Bool) => if x then "1" else "0"
       some (s!"{b (decide (paramsNew ms = paramsNewVartime ms))} {b (decide (paramsBoxed ms = paramsBoxed ms))} {b (decide (paramsNew ms = paramsBoxed ms))} ;; 1 1 1")
     | _, _ => badArgs
+  | "c08.params_cteq", [n, m1, m2] =>
+    -- `MontyParams::new(m1).ct_eq(&MontyParams::new_vartime(m2))`, `MontyForm::zero(p1).ct_eq(&MontyForm::zero(p2))`
+    match n.toNat?, hexToNat? m1, hexToNat? m2 with
+    | some n, some m1, some m2 =>
+      let p := paramsNew (toLimbs n m1)
+      let q := paramsNewVartime (toLimbs n m2)
+      let e := bitTok (m1 == m2)
+      some s!"{bitTok (paramsCtEq p q)} {bitTok (decide (val (uzero n) = val (uzero n)) && paramsCtEq p q)} ;; {e} {e}"
+    | _, _, _ => badArgs
   | "c08.params_eq_const", [n, m] =>
     match n.toNat?, hexToNat? m with
     | some n, some m =>
